@@ -38,7 +38,9 @@ CHECKS = {
         "operations, every operation of each thread takes effect exactly once and in order, at most one thread is inside an "
         "operation, a blocked thread is waiting for the lock holder, and some thread can always progress (no deadlock); for "
         "the deque loops the helper operations built from atomic identity-addressed primitives are linearisable w.r.t. a "
-        "foreign append landing at any boundary. The model's assumption (every heap access of PosPriorityQueue is under "
+        "foreign append landing at any boundary, and on the priority queue the compound call_pos (append, remove, insert, each "
+        "locked) gives the pop order of one of the two linearisations wherever the foreign append lands "
+        "(callPos_priority_linearizable, for every lawful heapq). The model's assumption (every heap access of PosPriorityQueue is under "
         "`with self._lock`; the deque helpers use only atomic primitives) is regenerated from the source by the translator on "
         "every run and checked by `decide`. Tie to the running code: a real second thread calls call_soon_threadsafe while the "
         "loop thread's operation is interrupted at every Python-level boundary (sys.settrace line events incl. every __lt__ "
@@ -55,7 +57,8 @@ CHECKS = {
         "arbitrary inner coroutine object; for every inner object (hence every coroutine body), every driver sequence over "
         "send/throw/close and every stack depth, one step and the whole trace of the wrapper equal those of PEP-380 delegation "
         "(W_step_eq, W_trace_eq, nativeAwait_congr, stack_trace_eq by induction), yielded objects pass through unchanged and a "
-        "held Future is re-yielded with its handshake flag set. Tied to the code by running generated async-def bodies through "
+        "held Future is re-yielded with its handshake flag set; an erasure lemma (proto_nativeAwait_outs) restates the headline "
+        "theorems literally about `Proto.nativeAwait b` for every `b : Body`. Tied to the code by running generated async-def bodies through "
         "the real wrappers, CPython's own `await` (the oracle) and the Lean driver.",
    note="Trusted: Lean kernel + {propext, Quot.sound}; CPython's coroutine-object envelope and PEP 380 are modelled "
         "(Model/Proto.lean), validated against the interpreter by the correspondence stream; contexts and eager are C04/C01.",
@@ -88,8 +91,9 @@ CHECKS = {
    text="Lean 4 proof on the wait-for graph model (Model/PrioGraph): on acyclic (ranked) graphs effective priority is fuel-"
         "independent and equals the minimum own priority over all tasks transitively waiting on locks held "
         "(eff_closed_form), the holder is at least as urgent as every waiter along chains of any length "
-        "(holder_at_least_as_urgent), and it falls back when waiters leave (eff_falls_back); inherit_immediate is proved for "
-        "direct runnable holders (_partial: holders reached through a chain of lock-blocked tasks). Tie: trace acceptance - "
+        "(holder_at_least_as_urgent), and it falls back when waiters leave (eff_falls_back); on the priority loop every ready key is at most the task's current effective priority in "
+        "fault-free executions, so a runnable holder reached through a chain of any length is keyed at least as urgently as "
+        "the waiter (inherit_immediate, ready_key_inv). Tie: trace acceptance - "
         "the real PriorityLock/PriorityTask run one ready handle at a time, every event replayed by the Lean lock model; "
         "oracle: an independent wait-for-graph recomputation of every effective priority and the inversion bound on the "
         "priority loop.",
@@ -100,9 +104,8 @@ CHECKS = {
  "C12": dict(
    text="Lean 4 proof on the lock model: the future set on release/give-up belongs to the (key, arrival)-minimal waiter "
         "(handover_most_urgent), no second hand-over while one is in flight, plain tasks are FIFO, a waiter is never "
-        "overtaken by one that was strictly less urgent throughout, re-keying keeps the arrival rank and sets the key to the "
-        "current effective priority (propagate_rekeys_to_current_eff; the global key invariant is _partial and compared on "
-        "every real trace instead). Tie: trace acceptance on both loops; oracle: at each real hand-over the receiver is the "
+        "overtaken by one that was strictly less urgent throughout, re-keying keeps the arrival rank and, in fault-free executions, every queued waiter with a pending "
+        "future is keyed by its current effective priority (waiter_key_inv, handover_by_effective_priority). Tie: trace acceptance on both loops; oracle: at each real hand-over the receiver is the "
         "(recomputed effective priority, arrival)-minimal waiter.",
    note="Trusted: Lean kernel + standard axioms; waiter queue modelled as an ordered list (the container is C17's); "
         "Task/Future kernel modelled.",
@@ -112,8 +115,9 @@ CHECKS = {
    text="Lean 4 proof: a 13-clause invariant (lock_inv) holds in every reachable state of the PriorityLock transition system "
         "under every interleaving of worker steps, cancel, task_throw and task_interrupt with any exception, delivered while "
         "waiting, woken-not-run or holding: locked iff owner, at most one holder, holding/waiting_on consistent, and a free "
-        "lock with waiters always has a wake-up in flight (wake_in_flight); quiescent states are clean; resuming any queued "
-        "waiter shrinks the queue (progress_partial: the temporal statement over fair executions is not formalised). Tie: "
+        "lock with waiters always has a wake-up in flight (wake_in_flight); quiescent states are clean; every run of "
+        "drain steps from a reachable state is at most as long as the queue and ends with the lock held or nobody queued "
+        "(progress, drain_step_exists; a finite statement, not temporal logic over infinite fair schedules). Tie: "
         "trace acceptance (every real event enabled in the model, observations equal) on the stock and the priority loop; "
         "oracle: holder counter, wake-in-flight after every handle, all workers finish, no exception in a never-faulted worker.",
    note="Trusted: Lean kernel + standard axioms; asyncio Task.__step/__wakeup/cancel and Future modelled; priorities of "
@@ -186,7 +190,8 @@ CHECKS = {
    design="6 C07"),
  "C08": dict(
    text="Lean 4 proof: deque_pop equals list erase at every valid index and raises exactly outside (dequePop_eq_eraseIdx), "
-        "queue_find/queue_remove/call_pos meet their list specifications; an abstract `ListLike` queue interface is proved "
+        "queue_find/queue_remove/call_pos meet their list specifications (deque_pop, queue_find, call_pos are also regenerated from "
+        "the source by the translator on every run and proved equal to the model's definitions, GenEqC08); an abstract `ListLike` queue interface is proved "
         "for the deque loops and - for every lawful heapq, any boost factor and any draws under the equal-priority invariant - "
         "for the priority queue (listLike_priority_loop, built on the C17/C19 container theory); the compound operations "
         "sleep_insert, task_reinsert, task_switch, create_task_descend are proved against the list model for every ListLike "
@@ -216,8 +221,8 @@ CHECKS = {
         "with any CancelledError-derived exception arriving in any of the three phases, repeatedly: every exit of wait() "
         "happens with the caller owning the lock (wait_exit_holds_lock), the exception that leaves is one that was delivered "
         "(exception_identity), notify(n) wakes the not-yet-notified waiters minimal for (priority at wait start, arrival) "
-        "(notify_order*), a notified waiter that leaves by exception passes the notification on (notify_not_lost, stated per "
-        "exit), and the partial ordereditems walk restores the waiter queue (cond_restore_pq, citing C17). Tie: trace "
+        "(notify_order*), notifications are conserved (notification_conservation: issued = returned + raised-after-notified + in flight, in every "
+        "reachable state; notify_not_lost per exit), and the partial ordereditems walk restores the waiter queue (cond_restore_pq, citing C17). Tie: trace "
         "acceptance of real producer/consumer runs stepped one handle at a time with faults at each phase, over PriorityLock "
         "and asyncio.Lock; oracles: lock owner at every exit, exception identity, tokens vs live waiters, wake order.",
    note="Trusted: Lean kernel + standard axioms; the underlying lock is abstract (mutual exclusion assumed: C13 for "
@@ -246,7 +251,8 @@ CHECKS = {
         "step/wakeup handle in the ready queue, one wake-up registered on a pending future} (kernel_inv, exactly_one_place), "
         "all_tasks is the disjoint union of runnable, blocked and current in all three calling contexts and the internal "
         "assertions hold (partition), task_is_runnable agrees with ready-queue membership (isRunnable_iff_inReady), the two set "
-        "functions never raise (api_total). Tie: trace acceptance - real primitives stepped one ready handle at a time on "
+        "functions never raise (api_total); task_is_blocked/task_is_runnable are regenerated from the source and proved equal "
+        "to the kernel model's predicates (GenEqC09). Tie: trace acceptance - real primitives stepped one ready handle at a time on "
         "the three loop configurations with PRNG-chosen environment actions, every event replayed by the Lean kernel; "
         "oracle: the partition identity after every action, from callbacks and from outside the stopped loop.",
    note="Trusted: Lean kernel + standard axioms; asyncio Task.__step/__wakeup/cancel, Future callbacks and call_soon are "
